@@ -140,15 +140,29 @@ def r2(cx, rec):
                     rec.need(not (r & set(oks)), 'ok-after-failed-guard/' + suf, f, eb, 'after the failing side of the guard %s the function can still return Ok' % show(ce)[:80])
 
 
+def terminator_flag(f):
+    """name of the "a terminating e is expected" parameter of a value-sequence scanner: the first bool parameter of a
+    non-closure bcodec function that loops over the input iterator and returns a sequence"""
+    if f.kind == 'Closure' or not f.path.startswith('bcodec::'):
+        return None
+    bools = C.params_of(f, r'^bool$')
+    if not bools or not C.params_of(f, r'Enumerate<') or not f.has_loop():
+        return None
+    if not f.locals[0]['ty'].startswith('std::result::Result<std::vec::Vec<'):
+        return None
+    return bools[0][0]
+
+
 @TABLE.rule('3', 'K1', 'termination evidence: exhaustion where a terminator is expected is an error; take_while scans test for end of input', floor=8)
 def r3(cx, rec):
     F = cx.F
     # (a) loops over the input iterator with a with_end flag
     for f in F.user_fns():
-        params = [v['n'] for v in f.raw['vars'] if 'arg' in v]
-        if 'with_end' not in params or f.kind == 'Closure':
+        flag = terminator_flag(f)
+        if flag is None:
             continue
-        nexts = [bb for bb in mirq.real_calls(f) if (f.blocks[bb]['t'].get('callee') or '') == 'std::iter::Iterator::next' and access_path(f.expr_call(bb)[2][0]) == 'it']
+        itp = {n for n, l, t in C.params_of(f, r'Enumerate<')}
+        nexts = [bb for bb in mirq.real_calls(f) if (f.blocks[bb]['t'].get('callee') or '') == 'std::iter::Iterator::next' and access_path(f.expr_call(bb)[2][0]) in itp]
         for nb in nexts:
             for sb, t in f.outcome_edges(nb).get('none', []):
                 # paths from exhaustion to return: what do they return when with_end is true?
@@ -157,7 +171,7 @@ def r3(cx, rec):
                     pf = mirq.path_facts(f, p)
                     if pf is None:
                         continue
-                    we = [v for k, v in pf['atoms'].items() if k == 'with_end']
+                    we = [v for k, v in pf['atoms'].items() if k == flag]
                     ret = mirq.value_on_path(f, p, 0)
                     is_ok = ret[0] == 'agg' and ret[3] == 'Ok'
                     if is_ok and (not we or we[0] is True):
@@ -169,9 +183,10 @@ def r3(cx, rec):
     # (a2) the terminator flag is a constant at every call site: false only at the top level, true for nested containers
     for f in F.user_fns():
         params = [v['n'] for v in f.raw['vars'] if 'arg' in v]
-        if 'with_end' not in params or f.kind == 'Closure':
+        flag = terminator_flag(f)
+        if flag is None:
             continue
-        wi = params.index('with_end')
+        wi = params.index(flag)
         for g, gb in C.callers(F, f.path):
             a = g.expr_call(gb)[2][wi]
             c = const_of(a)
@@ -188,23 +203,19 @@ def r3(cx, rec):
         for tb in tws:
             # an end-of-input observation: nth()/next()/peek() on a clone of the iterator taken before the scan, tested for None -> Err
             obs = False
-            for sb in f.switches():
-                ce, ts, o = f.cond(sb)
-                if ce[0] == 'discr' and ce[1][0] == 'call' and ce[1][4].get('name') in ('nth', 'next', 'peek', 'last') and 'Option' in ce[2]:
-                    ve = f.variant_edges(sb)
-                    nt = ve.get('None', ve.get('_'))
+            for subj, sb, nt, st in mirq.option_tests(f):
+                subj = mirq.init_of(subj)
+                if subj[0] == 'call' and subj[4].get('name') in ('nth', 'next', 'peek', 'last'):
                     r = f.reach_from(nt, cut_blocks=[sb])
                     if (r & set(C.err_exit_blocks(f))) and not (r & set(bi for bi, si, e in mirq.agg_sites(f, r'^std::result::Result$', 'Ok'))):
                         obs = True
-                        rec.site(f, sb, 'end-of-input observed by %s -> Err' % show(ce[1])[:70])
+                        rec.site(f, sb, 'end-of-input observed by %s -> Err' % show(subj)[:70])
             # the scan may live in a helper whose callers make the observation (extract_int <- parse_int)
             if not obs:
                 for g, gb in C.callers(F, f.path):
-                    for sb in g.switches():
-                        ce, ts, o = g.cond(sb)
-                        if ce[0] == 'discr' and ce[1][0] == 'call' and ce[1][4].get('name') in ('nth', 'next', 'peek') and 'Option' in ce[2]:
-                            ve = g.variant_edges(sb)
-                            nt = ve.get('None', ve.get('_'))
+                    for subj, sb, nt, st in mirq.option_tests(g):
+                        subj = mirq.init_of(subj)
+                        if subj[0] == 'call' and subj[4].get('name') in ('nth', 'next', 'peek'):
                             r = g.reach_from(nt, cut_blocks=[sb])
                             if (r & set(C.err_exit_blocks(g))):
                                 obs = True
